@@ -6,6 +6,7 @@ import (
 	"go/token"
 	"go/types"
 	"math"
+	"os"
 	"strings"
 
 	"golang.org/x/tools/go/ssa"
@@ -92,13 +93,13 @@ func (p *Path) globalCell(g *ssa.Global) Cell {
 	if c, ok := p.globals[g]; ok {
 		return c
 	}
-	if g.Pkg != nil && !p.initDone[g.Pkg] {
-		p.runInit(g.Pkg)
-		if c, ok := p.globals[g]; ok {
-			return c
-		}
+	if p.isInitPath {
+		return p.globalCellInit(g)
 	}
-	c := p.newCell(g.Type().(*types.Pointer).Elem())
+	fc := p.eng.frozenGlobal(g)
+	p.eng.frozen.mu.RLock()
+	c := p.cloneCell(fc)
+	p.eng.frozen.mu.RUnlock()
 	p.globals[g] = c
 	return c
 }
@@ -128,6 +129,12 @@ func (p *Path) runInit(pkg *ssa.Package) {
 	savedSite := p.curSite
 	savedPIV := p.panicIsViolation
 	p.panicIsViolation = false
+	stepsBefore := p.steps
+	defer func() {
+		if os.Getenv("GOSMT_INITSTATS") != "" {
+			fmt.Fprintf(os.Stderr, "INIT %s steps=%d\n", pkg.Pkg.Path(), p.steps-stepsBefore)
+		}
+	}()
 	p.tolerant++
 	func() {
 		defer func() {
@@ -859,6 +866,10 @@ func (p *Path) convert(x Value, from, to types.Type, fn *ssa.Function, pos token
 				}
 				p.unsupported("uintptr without provenance converted to unsafe.Pointer")
 			}
+			if iv.Prov.N >= 0 {
+				// an unchecked read/write outside the allocation is memory-unsafe rather than a panic
+				p.implicit(c.ULT(iv.T, c.BV(64, uint64(iv.Prov.N))), "unsafe-pointer-out-of-allocation", pos, fn)
+			}
 			return Ptr{Kind: PElem, Arr: iv.Prov, Off: iv.T}
 		}
 	}
@@ -980,7 +991,20 @@ func (p *Path) retypePtr(ptr Ptr, elem types.Type) Value {
 		}
 	}
 	if ptr.Kind == PCell {
-		// *T -> unsafe.Pointer -> *T' with identical layout (string <-> []byte header tricks are handled by callers)
+		if sc, ok := ptr.Cell.(*ScalarCell); ok {
+			// *[]byte -> *string and back: reinterpret the header (snapshot of the header, same backing bytes)
+			if sv, ok := sc.V.(SliceV); ok && isString(elem) && sv.AC == nil {
+				return Ptr{Kind: PCell, Cell: &ScalarCell{StringV{Arr: sv.Arr, Off: sv.Off, Len: sv.Len}}}
+			}
+			if st, ok := sc.V.(StringV); ok {
+				if sl, ok := elem.Underlying().(*types.Slice); ok {
+					if w, ok := intElem(sl.Elem()); ok && w == 8 {
+						return Ptr{Kind: PCell, Cell: &ScalarCell{SliceV{Arr: st.Arr, Off: st.Off, Len: st.Len, Cap: st.Len}}}
+					}
+				}
+			}
+		}
+		// *T -> unsafe.Pointer -> *T' with identical layout
 		return ptr
 	}
 	p.unsupported("unsafe pointer reinterpretation to " + elem.String())
